@@ -25,7 +25,7 @@ type C14Case struct {
 	Origin  string   `json:"origin,omitempty"`
 }
 
-var layoutSpaces = []string{" ", "  ", "\t", "\n", "\r\n", " ", " ", "　", "\u0085", " \n  ", "\v", "\f", " "}
+var layoutSpaces = []string{"\u1680", "\u2000", "\u2009", "\u200a", "\u2028", "\u2029", "\u202f", "\u205f", "\u2003\u2028 ", " ", "  ", "\t", "\n", "\r\n", " ", " ", "　", "\u0085", " \n  ", "\v", "\f", " "}
 
 var layoutComments = []string{"; c", ";; note (x) \"y\"", ";", "; ;;;; optimize:false", ";;;; optimize:false", ";;;; reordering:false, fast_evaluation:false", "; )(", ";; \"unterminated", ";;;; bogus directive", "; é　x", ";\t tab"}
 
@@ -302,7 +302,7 @@ func checkC14(c C14Case, r *Rec) *Violation {
 
 var propC14 = Prop[C14Case]{
 	ID:    "C14",
-	Rule:  "(a) typed random programs (prefix and infix) with layout-sensitive string literals, rendered canonically and re-laid-out three times (one with minimal spacing): between any two tokens nothing where the token rules allow it, any of 13 Unicode white-space forms, line breaks, or ;-comments containing parentheses, quotes and directive look-alikes (proper ;;;; lines only after the first token), optional trailing comment; (b) a valid directive for a drawn subset put before the first token; (c) token soups with string literals and comments that mostly do not compile. Oracles: every re-layout compiles to the same Dump/DumpTable and the same outcomes on 2 bindings; the directive-prefixed text equals the program of the named subset; for every input lexAll(IndentByParentheses^k(s)), k=1..3, equals lexAll(s) under the independent lexer (tokens and comments in order, comments modulo trailing white space, unterminated string = one pseudo-token) and the formatted text compiles to the same program (or fails likewise). Non-trivial = the re-layout contains a comment or a non-ASCII space, or a string literal with a layout-sensitive character; distinct by text",
+	Rule:  "(a) typed random programs (prefix and infix) with layout-sensitive string literals, rendered canonically and re-laid-out three times (one with minimal spacing): between any two tokens nothing where the token rules allow it, any of 22 Unicode white-space forms (every rune class unicode.IsSpace knows), line breaks, or ;-comments containing parentheses, quotes and directive look-alikes (proper ;;;; lines only after the first token), optional trailing comment; (b) a valid directive for a drawn subset put before the first token; (c) token soups with string literals and comments that mostly do not compile. Oracles: every re-layout compiles to the same Dump/DumpTable and the same outcomes on 2 bindings; the directive-prefixed text equals the program of the named subset; for every input lexAll(IndentByParentheses^k(s)), k=1..3, equals lexAll(s) under the independent lexer (tokens and comments in order, comments modulo trailing white space, unterminated string = one pseudo-token) and the formatted text compiles to the same program (or fails likewise). Non-trivial = the re-layout contains a comment or a non-ASCII space, or a string literal with a layout-sensitive character; distinct by text",
 	Gen:   genC14,
 	Check: checkC14,
 }
